@@ -212,9 +212,11 @@ Qed.
 Lemma mean_general cols a w : cols <> 1%nat -> dir_mean ROps cols a w = map (fun row => mean_row ROps row w) a.
 Proof. intros Hc. unfold dir_mean. destruct (Nat.eqb_spec cols 1); [contradiction | reflexivity]. Qed.
 
-(* the one-column branch: the column is returned as is, whatever the weights *)
-Lemma mean_single_column a w : dir_mean ROps 1 a w = map (fun row => nth 0 row 0) a.
-Proof. reflexivity. Qed.
+(* the one-column branch: the column, wrapped, whatever the weights *)
+Lemma mean_single_column a w : dir_mean ROps 1 a w = map (fun row => wrap ROps (nth 0 row 0)) a.
+Proof.
+  unfold dir_mean. cbn [Nat.eqb]. apply map_ext. intros row. f_equal. cbn [sadd s0 ROps]. apply Rplus_0_r.
+Qed.
 
 Lemma mean_length cols a w : length (dir_mean ROps cols a w) = length a.
 Proof. unfold dir_mean. destruct (Nat.eqb cols 1); now rewrite map_length. Qed.
@@ -239,12 +241,12 @@ Proof.
   induction H; simpl; [reflexivity|]. f_equal; [now apply mean_row_shift | assumption].
 Qed.
 
-(* in the one-column branch a shifted sample gives a shifted (congruent, not equal) result *)
+(* the one-column branch is shift invariant as well *)
 Lemma mean_single_column_shift a a' w : Forall2 (Forall2 cong2pi) a a' ->
-  Forall2 cong2pi (dir_mean ROps 1 a w) (dir_mean ROps 1 a' w).
+  dir_mean ROps 1 a' w = dir_mean ROps 1 a w.
 Proof.
-  rewrite !mean_single_column. induction 1 as [|r r' a a' Hr Ha IH]; simpl; constructor; [|assumption].
-  destruct Hr; simpl; [apply cong2pi_refl | assumption].
+  rewrite !mean_single_column. induction 1 as [|r r' a a' Hr Ha IH]; simpl; [reflexivity|]. f_equal; [|assumption].
+  apply wrap_cong. destruct Hr; simpl; [apply cong2pi_refl | assumption].
 Qed.
 
 (* rotation of all samples by a common angle *)
@@ -455,23 +457,21 @@ Proof.
   apply eq_IZR in E. lia.
 Qed.
 
-(* (i) not the argument of the resultant (not even for a positive weight), (ii) follows 2 pi shifts,
-   (iii) ignores the weight: a negative weight turns the resultant by a half turn, the result does not move *)
-Lemma single_column_literal_refuted :
-  (exists a w, 0 < w /\ dir_mean ROps 1 [[a]] [w] <> [mean_row ROps [a] [w]]) /\
-  (exists a w, 0 < w /\ dir_mean ROps 1 [[a + 2 * IZR 1 * PI]] [w] <> dir_mean ROps 1 [[a]] [w]) /\
-  (exists a w, w < 0 /\ ~ cong2pi (mean_row ROps [a] [w]) (nth 0 (dir_mean ROps 1 [[a]] [w]) 0)).
+(* one column, positive weight: the result IS the argument of the resultant; a negative weight is ignored
+   (the resultant turns by a half turn, the result does not move) *)
+Lemma single_column_positive a w : 0 < w -> dir_mean ROps 1 [[a]] [w] = [mean_row ROps [a] [w]].
 Proof.
-  pose proof PI_RGT_0 as Hp. repeat split.
-  - exists (3 * PI), 1. split; [lra|]. rewrite mean_single_column. cbn [map nth].
-    assert (E0 : mean_row ROps [3 * PI] [1] = wrap ROps (3 * PI)).
-    { apply (mean_row_all_equal (3 * PI) 1 [1]). simpl. lra. }
-    destruct wrap_concrete as [E _]. intros H. injection H as H'. pose proof (eq_trans H' (eq_trans E0 E)) as H2. lra.
-  - exists 0, 1. split; [lra|]. rewrite !mean_single_column. cbn [map nth]. intros H. injection H. lra.
-  - exists 0, (-1). split; [lra|]. rewrite mean_single_column, mean_row_R. cbn [map nth wsumf].
-    rewrite sin_0, cos_0. replace (0 * -1 + 0) with 0 by ring. replace (1 * -1 + 0) with (-1) by ring.
-    assert (E : atan2 0 (-1) = PI).
-    { unfold atan2. destruct (total_order_T (-1) 0) as [[H|H]|H]; try lra.
-      destruct (Rle_dec 0 0); [|lra]. replace (0 / -1) with 0 by (field; lra). rewrite atan_0. lra. }
-    rewrite E. apply not_cong_half_turn.
+  intros H. rewrite mean_single_column. cbn [map nth]. f_equal. symmetry.
+  apply (mean_row_all_equal a 1 [w]). simpl. lra.
+Qed.
+
+Lemma single_column_weight_ignored_refuted :
+  exists a w, w < 0 /\ ~ cong2pi (mean_row ROps [a] [w]) (nth 0 (dir_mean ROps 1 [[a]] [w]) 0).
+Proof.
+  pose proof PI_RGT_0 as Hp. exists 0, (-1). split; [lra|]. rewrite mean_single_column, mean_row_R. cbn [map nth wsumf].
+  rewrite sin_0, cos_0. replace (0 * -1 + 0) with 0 by ring. replace (1 * -1 + 0) with (-1) by ring.
+  assert (E : atan2 0 (-1) = PI).
+  { unfold atan2. destruct (total_order_T (-1) 0) as [[H|H]|H]; try lra.
+    destruct (Rle_dec 0 0); [|lra]. replace (0 / -1) with 0 by (field; lra). rewrite atan_0. lra. }
+  rewrite E. rewrite wrap_id by (unfold in_range; lra). apply not_cong_half_turn.
 Qed.
